@@ -4,7 +4,7 @@
    Statements only; proofs in Proofs/HSFacts.v on Proofs/QMatFacts.v.
    A second, field-generic formalisation is in Abstract/HS_mathcomp.v. *)
 From Coq Require Import List ZArith Arith Bool QArith Qcanon.
-From MsmV Require Import Lib.Result Lib.PyList Lib.QMat Model.Ergodic Model.Peq Model.HS Proofs.QMatFacts Proofs.HSFacts Proofs.HSIdentity.
+From MsmV Require Import Lib.Result Lib.PyList Lib.QMat Model.Ergodic Model.Peq Model.HS Proofs.QMatFacts Proofs.HSFacts Proofs.HSIdentity Proofs.GaussFacts Proofs.Totality.
 Import ListNotations.
 Local Open Scope nat_scope.
 
@@ -71,6 +71,30 @@ Proof.
   intros H. injection H as _ <-. reflexivity.
 Qed.
 Print Assumptions hs_labels.
+
+(* ---- the executable formula is TOTAL on the property's domain ---- *)
+(* Gauss-Jordan elimination: sound without the run-time check, and complete for matrices with a trivial kernel *)
+Theorem gauss_jordan_inverse_sound : forall n A X, 0 < n -> wf n n A -> inverse A = Some X ->
+  mmul X A = identity n /\ mmul A X = identity n.
+Proof. exact inverse_sound. Qed.
+Print Assumptions gauss_jordan_inverse_sound.
+
+Theorem gauss_jordan_inverse_complete : forall n A, 0 < n -> wf n n A -> trivial_kernel n A ->
+  exists X, inverse_cert A = Some X.
+Proof. exact inverse_cert_complete. Qed.
+Print Assumptions gauss_jordan_inverse_complete.
+
+(* for a stochastic matrix with an entrywise positive power (what "ergodic" means, C14) and ANY assignment of
+   the n microstates onto m macrostates that uses every macrostate, the stationary vector is found and both
+   inverses of the Hummer-Szabo formula exist: the model never answers "certificate failed" on the domain of
+   the property, for either value of positive *)
+Theorem hs_total_on_ergodic_input : forall n m k T aidx positive,
+  0 < n -> 0 < m -> wf n n T -> entries_nonneg T -> rows_sum_one T ->
+  (forall i j, i < n -> j < n -> (0 < mget (mpow T k) i j)%Qc) ->
+  length aidx = n -> (forall a, In a aidx -> a < m) -> (forall a, a < m -> In a aidx) ->
+  exists pi R, stationary T = Some pi /\ hs_formula T pi (aggregation m aidx) positive = Some R.
+Proof. exact ergodic_total. Qed.
+Print Assumptions hs_total_on_ergodic_input.
 
 Example hs_example :
   match lumped_estimate [[1;1;1;2;2;1;2;2;1;1;2;1]%Z] [[0;1;0;3;2;0;3;2;1;0;2;1]%Z] false 1 with
